@@ -199,20 +199,23 @@ package agent
 //@ declare rdiv(Int, Int) Int
 //@ declare aligned(Int, Int) Bool
 //@ define samerun(i, j, w) := rdiv(i, w) == rdiv(j, w)
-//@ axiom align_zero: forall w Int :: { aligned(0, w) } w >= 1 ==> aligned(0, w)
-//@ axiom align_step: forall p Int, w Int, q Int :: { aligned(p, w), aligned(q, w) } w >= 1 && aligned(p, w) && q == p + w ==> aligned(q, w)
+// definitions (visible only inside the proofs of the eight lemmas below)
+//@ axiom[private] rdiv_def: forall i Int, w Int :: { rdiv(i, w) } w >= 1 ==> rdiv(i, w) == i / w
+//@ axiom[private] aligned_def: forall p Int, w Int :: { aligned(p, w) } w >= 1 ==> (aligned(p, w) <==> p % w == 0)
+//@ lemma[C09] align_zero uses aligned_def: forall w Int :: { aligned(0, w) } w >= 1 ==> aligned(0, w)
+//@ lemma[C09] align_step uses aligned_def: forall p Int, w Int, q Int :: { aligned(p, w), aligned(q, w) } w >= 1 && aligned(p, w) && q == p + w ==> aligned(q, w)
 //@ axiom align_half: forall p Int, w Int, w2 Int :: { aligned(p, w2), aligned(p, w) } w >= 1 && w2 == 2 * w && aligned(p, w2) ==> aligned(p, w)
-//@ axiom rdiv_mono: forall i Int, j Int, w Int :: { rdiv(i, w), rdiv(j, w) } w >= 1 && i <= j ==> rdiv(i, w) <= rdiv(j, w)
-//@ axiom rdiv_before: forall p Int, w Int, i Int :: { aligned(p, w), rdiv(i, w) } w >= 1 && aligned(p, w) && 0 <= i && i < p ==> rdiv(i, w) < rdiv(p, w)
-//@ axiom rdiv_within: forall p Int, w Int, i Int :: { aligned(p, w), rdiv(i, w) } w >= 1 && aligned(p, w) && p <= i && i < p + w ==> rdiv(i, w) == rdiv(p, w)
-//@ axiom rdiv_first: forall i Int, w Int :: { rdiv(i, w) } 0 <= i && i < w ==> rdiv(i, w) == 0
-//@ axiom rdiv_one: forall i Int :: { rdiv(i, 1) } i >= 0 ==> rdiv(i, 1) == i
+//@ lemma[C09] rdiv_mono uses rdiv_def: forall i Int, j Int, w Int :: { rdiv(i, w), rdiv(j, w) } w >= 1 && i <= j ==> rdiv(i, w) <= rdiv(j, w)
+//@ lemma[C09] rdiv_before uses rdiv_def, aligned_def: forall p Int, w Int, i Int :: { aligned(p, w), rdiv(i, w) } w >= 1 && aligned(p, w) && 0 <= i && i < p ==> rdiv(i, w) < rdiv(p, w)
+//@ lemma[C09] rdiv_within uses rdiv_def, aligned_def: forall p Int, w Int, i Int :: { aligned(p, w), rdiv(i, w) } w >= 1 && aligned(p, w) && p <= i && i < p + w ==> rdiv(i, w) == rdiv(p, w)
+//@ lemma[C09] rdiv_first uses rdiv_def: forall i Int, w Int :: { rdiv(i, w) } 0 <= i && i < w ==> rdiv(i, w) == 0
+//@ lemma[C09] rdiv_one uses rdiv_def: forall i Int :: { rdiv(i, 1) } i >= 0 ==> rdiv(i, 1) == i
 
-//@ define runsordered(r, s, n, w) := forall i, j :: { rdiv(i, w), rdiv(j, w) } 0 <= i && i <= j && j < n && samerun(i, j, w) ==> rank(r, s[i], s[j]) <= 1
+//@ define runsordered(r, s, n, w) := forall i, j :: { s[i], s[j] } 0 <= i && i <= j && j < n && samerun(i, j, w) ==> rank(r, s[i], s[j]) <= 1
 
 //@ func (*sorter_).sortValues
 //@   props C09
-//@   uses cnt_agree, cnt_split, cnt_extend
+//@   uses cnt_agree, cnt_split, cnt_extend, align_zero, align_step, rdiv_mono, rdiv_before, rdiv_within, rdiv_first, rdiv_one
 //@   nopanic
 //@   let N := len(values)
 //@   let V0 := view(values)
@@ -220,22 +223,36 @@ package agent
 //@   modifies elems(values)
 //@   ensures[C09] forall j :: outside(values, j) ==> rawat(values, j) == old(rawat(values, j))
 //@   ensures[C09] forall x U :: cnt(view(values), 0, N, x) == cnt(V0, 0, N, x)
+//@   ensures[C09] rpre(rk) ==> ordered(rk, view(values), 0, N)
 //@   loop 1:
 //@     invariant width >= 1 && width <= 2 * MAXLEN && length == N && len(values) == N && len(buffer) == N && arr(values) != arr(buffer)
 //@     invariant (values == entry(values) && fresh(buffer)) || (buffer == entry(values) && fresh(values))
 //@     invariant forall j :: outside(entry(values), j) ==> rawat(entry(values), j) == old(rawat(entry(values), j))
 //@     invariant forall x U :: cnt(view(buffer), 0, N, x) == cnt(V0, 0, N, x)
 //@     invariant unchanged(elems, arr(entry(values)))
+//@     invariant rpre(rk) ==> runsordered(rk, view(buffer), N, width)
 //@     decreases N - width
 //@   loop 2:
-//@     invariant 0 <= left && left <= N + 2 * width && aligned(left, 2 * width) && width >= 1 && width < N && width <= MAXLEN && length == N && len(values) == N && len(buffer) == N && arr(values) != arr(buffer)
+//@     invariant 0 <= left && left <= N + 2 * width && aligned(left, 2 * width) && width >= 1 && width <= MAXLEN && length == N && len(values) == N && len(buffer) == N && arr(values) != arr(buffer)
 //@     invariant (values == entry(values) && fresh(buffer)) || (buffer == entry(values) && fresh(values))
 //@     invariant forall j :: outside(entry(values), j) ==> rawat(entry(values), j) == old(rawat(entry(values), j))
 //@     invariant forall x U :: cnt(view(buffer), 0, N, x) == cnt(V0, 0, N, x)
 //@     invariant unchanged(elems, arr(entry(values)))
+//@     invariant rpre(rk) ==> runsordered(rk, view(buffer), N, width)
+//@     invariant rpre(rk) ==> (forall i, j :: { view(values)[i], view(values)[j] } 0 <= i && i <= j && j < N && j < left && samerun(i, j, 2 * width) ==> rank(rk, view(values)[i], view(values)[j]) <= 1)
 //@     invariant left <= N ==> (forall x U :: cnt(view(values), 0, left, x) == cnt(view(buffer), 0, left, x))
 //@     invariant left > N ==> (forall x U :: cnt(view(values), 0, N, x) == cnt(view(buffer), 0, N, x))
 //@     decreases N + 2 * width - left
+//@   hint call3: forall i :: { view(values)[i] } 0 <= i && i < N ==> view(values)[i] == view(buffer)[i]
+//@   hint before call4: aligned(left, width) && (middle == left + width ==> aligned(middle, width))
+//@   hint before call4: forall a :: { view(buffer[left:middle])[a] } 0 <= a && a < middle - left ==> view(buffer[left:middle])[a] == view(buffer)[left + a]
+//@   hint before call4: forall a :: { view(buffer[middle:right])[a] } 0 <= a && a < right - middle ==> view(buffer[middle:right])[a] == view(buffer)[middle + a]
+//@   hint before call4: rpre(rk) ==> ordered(rk, view(buffer[left:middle]), 0, middle - left)
+//@   hint before call4: rpre(rk) ==> ordered(rk, view(buffer[middle:right]), 0, right - middle)
+//@   hint call4: rpre(rk) ==> ordered(rk, view(values[left:right]), 0, right - left)
+//@   hint call4: forall k :: { view(values)[k] } left <= k && k < right ==> view(values)[k] == view(values[left:right])[k - left]
+//@   hint call4: forall k :: { view(values)[k] } 0 <= k && k < left ==> view(values)[k] == pre(view(values))[k]
+//@   hint call4: forall k :: { view(buffer)[k] } 0 <= k && k < N ==> view(buffer)[k] == pre(view(buffer))[k]
 //@   hint call4: forall x U :: cnt(view(values[left:right]), 0, right - left, x) == cnt(view(buffer[left:middle]), 0, middle - left, x) + cnt(view(buffer[middle:right]), 0, right - middle, x)
 //@   hint call4: forall x U :: { cnt(view(buffer), 0, left, x) } cnt(view(buffer), 0, left, x) == cnt(pre(view(buffer)), 0, left, x)
 //@   hint call4: forall x U :: { cnt(view(values), 0, left, x) } cnt(view(values), 0, left, x) == cnt(pre(view(values)), 0, left, x)
